@@ -33,6 +33,45 @@ type amp struct {
 	Long    int  `json:"long,omitempty"`
 	LongAt  int  `json:"longAt,omitempty"`
 	LongCmd bool `json:"longCmd,omitempty"`
+	// Pad > 0: that many comment lines (padLine) are appended: a text of several KB whose table is that of the
+	// short text (what is left unread in a buffer after an early error is then a sizeable piece of text)
+	Pad int `json:"pad,omitempty"`
+}
+
+const padLine = "# pad pad pad pad pad pad pad pad pad pad pad pad pad pad pad pad"
+
+// expandLines applies Long/LongAt/LongCmd and Pad to a text (the Lean driver does the same: `ampText`).
+func (a *amp) expandLines(s string) string {
+	if a.Long > 0 {
+		n := a.Long
+		if n > 1<<21 {
+			n = 1 << 21
+		}
+		long := "#" + strings.Repeat("x", n-1)
+		if a.LongCmd {
+			long = "route add " + strings.Repeat("s", n) + " /long http://a:1/"
+		}
+		ls := strings.Split(s, "\n")
+		at := a.LongAt
+		if at < 0 {
+			at = 0
+		}
+		if at > len(ls) {
+			at = len(ls)
+		}
+		out := append([]string{}, ls[:at]...)
+		out = append(out, long)
+		out = append(out, ls[at:]...)
+		s = strings.Join(out, "\n")
+	}
+	if a.Pad > 0 {
+		n := a.Pad
+		if n > 4096 {
+			n = 4096
+		}
+		s += strings.Repeat("\n"+padLine, n)
+	}
+	return s
 }
 
 type nopanicIn struct {
@@ -65,28 +104,7 @@ func (in *nopanicIn) full() string {
 	}
 	b.WriteString(s)
 	s = b.String()
-	if a.Long > 0 {
-		n := a.Long
-		if n > 1<<21 {
-			n = 1 << 21
-		}
-		long := "#" + strings.Repeat("x", n-1)
-		if a.LongCmd {
-			long = "route add " + strings.Repeat("s", n) + " /long http://a:1/"
-		}
-		ls := strings.Split(s, "\n")
-		at := a.LongAt
-		if at < 0 {
-			at = 0
-		}
-		if at > len(ls) {
-			at = len(ls)
-		}
-		out := append([]string{}, ls[:at]...)
-		out = append(out, long)
-		out = append(out, ls[at:]...)
-		s = strings.Join(out, "\n")
-	}
+	s = a.expandLines(s)
 	return s
 }
 
@@ -272,6 +290,9 @@ func runNopanic(raw json.RawMessage) (interface{}, error) {
 		default:
 			out["outcome"] = "table"
 			t = tt
+			if n, ok := parsedDefs(text); ok {
+				out["ndefs"] = n
+			}
 		}
 		if in.Amp == nil && in.Hex == "" && utf8.ValidString(text) {
 			o := newOracle()
